@@ -9,6 +9,7 @@ mod c07;
 mod c08;
 mod c18;
 mod c20;
+mod c20v;
 
 use vcommon::mon::Args;
 
